@@ -11,3 +11,4 @@ import InToto.Properties.C18
 #print axioms InToto.C18.invalid_name_rejected
 #print axioms InToto.C18.examples
 #print axioms InToto.C18.facts_name_regexp
+#print axioms InToto.C18.facts_substitution_before_use
